@@ -64,9 +64,27 @@ def build(case, only=None):
             faults.append({"at": ["event", f["k"]], "do": "vanish", "session": "s0", "how": f.get("how", "rst")})
         elif f["kind"] == "fs":
             faults.append({"at": ["fslabel", f["k"]], "session": "s0", "errno": errno.EIO})
+    srv = {"block_size": B, "idle_timeout": None, "socket_timeout": None, "wait_future_timeout": None, "users": users if mode == "base" else [dict(u) for u in USERS_PREFIX]}
+    lim = case.get("limits")
+    if lim:
+        # a speed limit shared by all sessions (server-wide, or per user with every session on
+        # one account) next to a socket_timeout: alone, a block costs frac * T of throttle wait;
+        # with the others' traffic on the same throttle the wait exceeds T.  A limit may slow a
+        # session down; it must not change what the session is told.  (Downloads and plain
+        # commands only: an uploading peer that waits for the throttled 150 mark before it sends
+        # really does leave the data connection silent for longer than socket_timeout.)
+        rate = max(1, int(B / (lim["frac"] * lim["T"])))
+        srv["socket_timeout"] = lim["T"]
+        if lim["level"] == "server":
+            srv["read_speed_limit"] = rate
+            srv["write_speed_limit"] = rate
+        else:
+            for u in srv["users"]:
+                u["read_speed_limit"] = rate
+                u["write_speed_limit"] = rate
     return {
         "seed": case["seed"] + (0 if only is None else 7),
-        "server": {"block_size": B, "idle_timeout": None, "socket_timeout": None, "wait_future_timeout": None, "users": users if mode == "base" else USERS_PREFIX},
+        "server": srv,
         "net": net,
         "fs": {"delay": case.get("fs_delay", [0.0001, 0.003]), "tree": tree, "short_reads": bool(case["seed"] & 1)},
         "sessions": sessions,
@@ -326,6 +344,12 @@ def gen_case(seed):
         # identical scripts on different users' base directories: the same textual paths everywhere
         if rnd.random() < 0.6:
             case["scripts"] = [case["scripts"][0]] * n
+    if rnd.random() < 0.15:
+        n = 3
+        case.update({"scripts": [rnd.choice(["big_retr", "big_retr", "mlsd_list", "rest_retr", "walk", "mlst", "misc"]) for _ in range(n)], "mode": "prefix", "starts": [0.0, 0.0, 0.0005], "B": 64, "small_pipe": False})
+        case["logins"] = [rnd.choice(["anonymous", "u2"])] * n
+        case["limits"] = {"level": rnd.choice(["server", "user"]), "T": rnd.choice([0.5, 1.0]), "frac": rnd.choice([0.4, 0.45])}
+        return case
     x = rnd.random()
     if x < 0.25:
         case["fault"] = {"kind": "cut", "k": rnd.randrange(5, 150), "how": rnd.choice(["rst", "fin"])}
